@@ -132,6 +132,16 @@ pub proof fn lemma_dev_roundtrip(d: u64)
 #[verifier::external_body] pub fn minor(dev: u64) -> (r: u32) ensures r == spec_minor(dev) { unimplemented!() }
 
 impl File {
+    /// std::io::Seek through `&File` (lseek with SEEK_SET): moves the *descriptor's cursor*, which every holder of the descriptor shares
+    #[verifier::external_body]
+    pub fn seek(&self, from: SeekFrom, Tracked(w): Tracked<&mut World>) -> (r: std::result::Result<u64, io::Error>)
+        ensures fr_data(*old(w), *final(w)), final(w).eintr_left == old(w).eintr_left, final(w).files == old(w).files, final(w).trace == old(w).trace,
+            forall|i: FdId| i != self.id() ==> final(w).cursor[i] == old(w).cursor[i],
+            match r {
+                Ok(p) => final(w).faults == old(w).faults && final(w).cursor[self.id()] == p && (from is Start ==> p == from->Start_0),
+                Err(_) => final(w).faults == old(w).faults + 1 && final(w).cursor[self.id()] == old(w).cursor[self.id()],
+            },
+    { unimplemented!() }
     /// dup(2): a second descriptor for the same open file description (same inode, *shared* offset)
     #[verifier::external_body]
     pub fn try_clone(&self) -> (r: std::result::Result<File, io::Error>)
